@@ -729,6 +729,15 @@ class Evaluator:
                 for d in reversed(st.decorator_list):
                     clo = T("call", d, mod, fn=self.ev(d, sc, mod), args=[clo], kw={}, dstar=[])
                 sc.vars[st.name] = clo
+            elif isinstance(st, ast.Expr) and isinstance(st.value, ast.YieldFrom):
+                # yield from X   ==   for e in X: yield e
+                tmp_ = ast.Name(id="__yf__", ctx=ast.Store())
+                lp_ = ast.For(target=tmp_, iter=st.value.value, body=[ast.Expr(value=ast.Yield(value=ast.Name(id="__yf__", ctx=ast.Load())))], orelse=[])
+                for x_ in ast.walk(lp_):
+                    if x_ is not st.value.value and not hasattr(x_, "lineno"):
+                        ast.copy_location(x_, st)
+                lp_._parent = getattr(st, "_parent", None)
+                return self.run([lp_] + rest, sc, mod)
             elif isinstance(st, ast.Expr):
                 if isinstance(st.value, ast.Constant):
                     continue  # docstring
